@@ -226,7 +226,21 @@ def probe_deadlines(model, now, counters, report, enforced):
     if kind in ("tetrisched_gurobi", "tetrisched_cplex"):
         # every feasible placement is one space-time cell that exists as a variable: inspect them all
         for name, v in tv.items():
-            if v.previously_placed or hasattr(v.task, "tasks"):
+            if v.previously_placed:
+                continue
+            if hasattr(v.task, "tasks"):
+                # a batch (batching mode): every cell that exists as a variable must let EVERY member finish by its deadline
+                bump("deadline_batches_probed")
+                for (w, t, s), x in v.space_time_matrix.items():
+                    if isinstance(x, int):
+                        continue
+                    bump("deadline_cells_inspected")
+                    late = [m for m in v.task.tasks if enforced(m) and t + _rt(s) > m.deadline.time]
+                    if late:
+                        report("model_batch_cell_past_member_deadline",
+                               f"{kind}: batch {[m.unique_name for m in v.task.tasks]}: placement variable at t={t} runtime {_rt(s)} "
+                               f"completes after the deadline {late[0].deadline.time} of its member {late[0].unique_name}")
+                        break
                 continue
             if not enforced(v.task):
                 continue
